@@ -27,6 +27,12 @@ Has(r, f) == f \in DOMAIN r
 Evaluable(r) == ~Has(r, "big")                         \* rows whose input was too long to log carry only lengths and classes
 
 \* ====================================================================== C12
+\* other messages of the built-in functions' own encoder (k = "omsg"): what the data string must say, read off the row's inputs
+FnHandover == <<69, 83, 68, 84, 78, 70, 84, 67, 114, 101, 97, 116, 101, 82, 111, 108, 101, 84, 114, 97, 110, 115, 102, 101, 114>>   \* "ESDTNFTCreateRoleTransfer"
+OMsgFn(r) == IF r.sub = "handover" THEN FnHandover ELSE r.call[1]
+OMsgArgs(r) == IF r.sub = "handover" THEN <<r.tok, StripZeros(r.ctr)>>             \* token id and the counter as a minimal big-endian number
+               ELSE [i \in 1..(Len(r.call) - 1) |-> r.call[i + 1]]                 \* the attached call's own arguments, empty ones included
+
 \* P12_Total: every call made for this row returned a value or an error (the harness records "panic"
 \* from recover(); the specification has no such outcome)
 P12_Total(r) == \A i \in 1..Len(r.cl) : r.cl[i] \in {"value", "error"}
@@ -64,6 +70,7 @@ P12_Agrees(r) ==
                                               /\ r.pin \in {r.data, <<AT>> \o r.data}        \* what the parser was given
                                               /\ SameRes(r.parse, ParseSU(r.pin))
          [] r.k = "bhist" -> r.bcls = "value" => BHistAgrees(r)
+         [] r.k = "omsg" -> r.res = "ok" => SameRes(r.parse, ParseCall(r.data))
          [] r.k = "msg" -> r.res = "ok" => /\ SameRes(r.parse, ParseCall(r.data))
                                            /\ r.parse.cls = "value" => Agree(r.dst, ParseTransfers(r.snd, r.rcv, r.parse.v.fn, r.parse.v.args))
          [] OTHER -> TRUE
@@ -76,6 +83,7 @@ InverseDemanded(r) ==
     [] r.k = "deploy" -> r.code # <<>> /\ r.vm # <<>>
     [] r.k = "su" -> r.us # <<>> /\ \A i \in 1..Len(r.us) : r.us[i].o # <<>>
     [] r.k = "msg" -> r.res = "ok" /\ MsgSenderView(r).cls = "value"
+    [] r.k = "omsg" -> r.res = "ok" /\ (r.sub = "handover" \/ (r.call # <<>> /\ r.call[1] # <<>> /\ \A i \in 1..Len(r.call[1]) : r.call[1][i] # AT))
     [] r.k = "bhist" -> r.bcls = "value" /\ \E i \in 1..Len(r.ops) : BRepresentable(BRun(B0, r.ops, 1)[i])
     [] OTHER -> FALSE
 P12_Inverse(r) ==
@@ -85,6 +93,7 @@ P12_Inverse(r) ==
          [] r.k = "deploy" -> SameRes(r.parse, Val([code |-> r.code, vm |-> r.vm, meta |-> r.meta, args |-> r.args]))
          [] r.k = "su" -> SameRes(r.parse, Val(r.us)) /\ r.data2 = r.data
          [] r.k = "bhist" -> BHistInverse(r)
+         [] r.k = "omsg" -> SameRes(r.parse, Val([fn |-> OMsgFn(r), args |-> OMsgArgs(r)]))
          [] r.k = "msg" -> \* what can be observed of the unexported message encoder: the emitted string parses, names the
                            \* function, is exactly what the builder makes of its own parse (so parse inverts the encoder on it),
                            \* and the attached call read off the message is the one the sender attached.  Token amounts and
@@ -119,12 +128,12 @@ Pred(name, r) ==
     [] name = "P14_Deterministic" -> P14_Deterministic(r) [] name = "P14_DecodeTotal" -> P14_DecodeTotal(r)
     [] OTHER -> TRUE
 PredNames == {"P12_Total", "P12_Agrees", "P12_Inverse", "P14_Bytes", "P14_RoundTrip", "P14_Size", "P14_Deterministic", "P14_DecodeTotal"}
-C12Kinds == {"str", "xfer", "build", "deploy", "su", "msg", "bhist"}
+C12Kinds == {"str", "xfer", "build", "deploy", "su", "msg", "bhist", "omsg"}
 C14Kinds == {"amt", "tok", "meta", "roles"}
 
 \* vacuity counters: what the table exercised
 Counters == {"rows", "evaluated", "value", "error", "panic", "inverse", "unspec", "table", "random", "illtyped",
-             "str", "xfer", "build", "deploy", "su", "msg", "bhist", "bhist_reuse", "amt", "tok", "meta", "roles", "decoded", "rejected", "xfer_value", "xfer_error"}
+             "str", "xfer", "build", "deploy", "su", "msg", "bhist", "bhist_reuse", "omsg", "amt", "tok", "meta", "roles", "decoded", "rejected", "xfer_value", "xfer_error"}
 Cnt0 == [k \in Counters |-> 0]
 Triggers(r) ==
   {"rows", r.k}
